@@ -8,8 +8,9 @@ makes against stock revm (" X:" marks) and a direct Python statement of the hist
 """
 import collections, os, re
 from checklib import core
+from checklib.props import stm_common as sc
 
-BINS = ["ben"]
+BINS = ["ben", "e2e"]
 PID = "C07"
 U256 = 1 << 256
 
@@ -17,6 +18,18 @@ U256 = 1 << 256
 def setup():
     core.coq_build(["Ben/Extract.vo"])
     core.ocaml_build("ben", "ben", "ben_drv")
+    sc.setup()
+
+
+def sched_stage(ctx):
+    """The scheduler's use of the reward history (record / invalidate / validate around executions and
+    failed validations): blocks in which a third of the transactions read the fee recipient and gas
+    (hence the reward) depends on what an attempt read, run by the real Scheduler under driven
+    schedules (stragglers, slow database); result vs in-order stock revm."""
+    agg, bins, _ = sc.run_sweeps(ctx, [
+        ("ben-sched", 71, 1500 if ctx.quick else 25000, ["txs=3..6", "workers=2,3", "opts=ben,chain,cb", "strat=mix2"]),
+    ], want_trace=False)
+    return agg
 
 
 # ------------------------------------------------------------------------------ differential
@@ -263,7 +276,12 @@ def run(ctx):
     corr_ok = all(d["first_diff"] is None for d in diffs)
     xmarks = sum(1 for d in diffs for l in d["impl"] if " X:" in l)
 
-    if not proof["ok"] or not corr_ok or xmarks:
+    sch = sched_stage(ctx)
+    if sch["oracle_mismatch"]:
+        c = sch["oracle_mismatch"][0]
+        ctx.violation("beneficiary accounting differs from in-order revm in a scheduled block (a reader of the fee recipient or the final credit is wrong)",
+                      dict(replay=sc.replay_cmd(c), case=c, detail=open(c["file"]).read()[:4000] if c.get("file") else "", seed=ctx.seed), True)
+    elif not proof["ok"] or not corr_ok or xmarks:
         witness, broken = search(ctx, diffs, proof)
         if witness:
             ctx.violation("beneficiary accounting differs from in-order revm: " + witness["predicate"],
@@ -281,7 +299,9 @@ def run(ctx):
             "revm's journal (load_account_mut / incr_balance / finalize) and the commit layer's per-account rule are transcribed in Ben/Model.v, not verified; they are exercised against the real revm in the arith differential",
         ],
         theorems=proof["theorems"],
-        evaluations=len(dh["cases"]) + len(da["cases"]) + len(db["cases"]),
+        evaluations=len(dh["cases"]) + len(da["cases"]) + len(db["cases"]) + sch["cases"],
+        scheduled_blocks=dict(cases=sch["cases"], oracle_mismatches=len(sch["oracle_mismatch"]), driver_failures=len(sch["driver_failure"]),
+                              rule="blocks with coinbase probes and data-dependent gas run by the real Scheduler under driven schedules (random, sticky, PCT, straggler, slow database) vs in-order stock revm"),
         distinct_nontrivial=hnt + ant + db["nontrivial"],
         rule="hist: seeded op sequences (record_execution u/reward/journal-account/both, record_estimate, invalidate, resolve_before, validate; block sizes 0-6; repeated, stale, zero and usize::MAX incarnations; out-of-range ids; near-overflow balances and rewards; absent anchor; snapshots incl. None) on the real Beneficiary vs the extracted model; non-trivial = distinct sequence with an accepted record, a blocked read and a read with a non-empty chain. "
              "arith: from_gas + revm's reward_beneficiary on a mainnet Context (all SpecIds, tx types 0-4 and unknown, price below/at/above base fee, zero/absent/huge priority fee, fee charge disabled, u64/u128 limits, negative refund, reservoir), apply_to vs revm incr_balance, BeneficiaryMode::apply in both modes followed by the real finalize / classification / record_execution / resolve_before; non-trivial = distinct gas case with a non-zero reward, every Deferred-mode case, every apply case. "
